@@ -2,6 +2,7 @@ import DymVerif.Driver.Common
 import DymVerif.Gen.Keys
 import DymVerif.Driver.C19Coll
 import DymVerif.Driver.C19X
+import DymVerif.Driver.C19Addr
 namespace DymVerif.Driver.C19
 open DymVerif DymVerif.Keys DymVerif.Driver
 
@@ -92,6 +93,35 @@ def lkscan (f : List String) : String :=
   | ["denall", u, a, "|", b, d', id] =>
       inO (iterPrefix (lkFamilyPrefix (bool! u) 9 [hex! a]))
         (lockRefStoreKey (bool! u) (combineKeys [[9], hex! b, lkDurationKey (int! d')]) (nat! id))
+  | _ => "bad-op"
+
+/-- the lockup scans of the third pass: `<kind> <u> <A> <dn> <d> <T…7> | <u'> <fi> <B> <dn'> <d'> <t…7> <id>`;
+    the entry is the `fi`-th reference key of a one-denom lock (any family: 0..3 = 0x07..0x0A by
+    duration, 4..7 = 0x0B..0x0E by time), filed under unlocking status `u'` -/
+def lkscan2 (f : List String) : String :=
+  match f with
+  | kind :: u :: a :: dn :: d :: y :: mo :: dd :: h :: mi :: s :: ns :: "|" :: u' :: fi :: b :: dn' :: d' :: rest =>
+      let T := timeF! [y, mo, dd, h, mi, s, ns]
+      let t := timeF! (rest.take 7)
+      let id := nat! ((rest.drop 7).headD "0")
+      let l : LockK := ⟨hex! b, int! d', t, [hex! dn']⟩
+      if !(validDate T && validDate t) then "invalid-date" else
+      if !okOwner l.owner then "err" else
+      match (if bool! u' then lockRefKeys l else durationLockRefKeys l)[nat! fi]? with
+      | none => "err"
+      | some rk =>
+        let k := lockRefStoreKey (bool! u') rk id
+        let A := hex! a
+        let D := hex! dn
+        match kind with
+        | "all" => inO (iterPrefix (lkFamilyPrefix (bool! u) 7 [])) k
+        | "after" => inO (iterAfterTime (lkFamilyPrefix true 11 []) T) k
+        | "accafter" => inO (iterAfterTime (lkFamilyPrefix true 12 [A]) T) k
+        | "acclonger" => inO (iterLongerDuration (lkFamilyPrefix (bool! u) 8 [A]) (int! d)) k
+        | "accdenafter" => inO (iterAfterTime (lkFamilyPrefix true 14 [A, D]) T) k
+        | "accdenlonger" => inO (iterLongerDuration (lkFamilyPrefix (bool! u) 10 [A, D]) (int! d)) k
+        | "accdendur" => inO (iterDuration (lkFamilyPrefix (bool! u) 10 [A, D]) (int! d)) k
+        | _ => "bad-op"
   | _ => "bad-op"
 
 /-- dnkey <family> <component hex>: through the generated translations of the x/dymns key builders -/
@@ -213,13 +243,14 @@ def step (_ : Unit) (f : List String) : Unit × String :=
         let ks := if bool! u then lockRefKeys l else durationLockRefKeys l
         ",".intercalate (ks.map fun k => toHexD (lockRefStoreKey (bool! u) k (nat! id)))
   | "lkscan" :: rest => lkscan rest
+  | "lkscan2" :: rest => lkscan2 rest
   | ["dnkey", fam, c] => toHexD (dnkey fam (hex! c))
   | ["dncmp", fa, ca, fb, cb] =>
       -- equality of two keys, and whether a whole-family scan with a's family prefix returns b's key
       let a := dnKeyOf fa (hex! ca)
       let b := dnKeyOf fb (hex! cb)
       s!"{decide (a.bytes = b.bytes)} {isPrefix a.familyPrefix b.bytes}"
-  | _ => ((C19Coll.step f).orElse fun _ => C19X.step f).getD "bad-op")
+  | _ => (((C19Coll.step f).orElse fun _ => C19X.step f).orElse fun _ => C19Addr.step f).getD "bad-op")
 
 def drv : Drv := { σ := Unit, init := (), step := step }
 
